@@ -538,6 +538,7 @@ func genArm(g *hx.Gen) {
 		ks2, vs2 = append(ks2, ks[i]), append(vs2, vs[i])
 	}
 	body := r.Bytes(bodyLen(r, g))
+	g.Stat("arm")
 	g.Stat(fmt.Sprintf("arm.headers=%d", len(ks2)))
 	g.Emit("arm ty=%s hk=%s hv=%s ch=%s body=%s", hx.Hex(ty), hexJoin(ks2), hexJoin(vs2), hx.JoinInts(chunking(r, len(body))), hx.Hex(body))
 }
@@ -604,6 +605,7 @@ func genDec(g *hx.Gen) {
 	crc := crcLine(body)
 	end := "-----END PGP MESSAGE-----"
 	kind := r.Intn(24)
+	g.Stat("dec")
 	g.Stat(fmt.Sprintf("dec.kind=%02d", kind))
 	switch kind {
 	case 0, 1, 2: // flip one base64 character of the body → CRC mismatch (or base64 error)
@@ -790,6 +792,7 @@ func genClrDec(g *hx.Gen) {
 	hdrs := "Hash: SHA256" + eol
 	pre, post := "", ""
 	kind := r.Intn(16)
+	g.Stat("clrdec")
 	g.Stat(fmt.Sprintf("clrdec.kind=%02d", kind))
 	switch kind {
 	case 0:
@@ -823,7 +826,7 @@ func genClrDec(g *hx.Gen) {
 }
 
 func gen(g *hx.Gen) {
-	n := g.Count(3000, 150000)
+	n := g.Count(3000, 100000)
 	r := g.R
 	for i := 0; i < n; i++ {
 		switch k := r.Intn(20); {
@@ -843,6 +846,7 @@ func gen(g *hx.Gen) {
 			g.Emit("clr hash=%s ch=%s pt=%s", hx.Hex([]byte(r.PickStr("SHA256", "SHA256", "SHA1", "SHA512", "SHA384", "SHA224"))), hx.JoinInts(chunking(r, len(pt))), hx.Hex(pt))
 		case k < 17:
 			pt := plaintext(r, g)
+			g.Stat("clr2")
 			g.Emit("clr2 ch=%s pt=%s pt2=%s", hx.JoinInts(chunking(r, len(pt))), hx.Hex(pt), hx.Hex(variant(r, g, pt)))
 		default:
 			genClrDec(g)
